@@ -6,54 +6,68 @@ Import ListNotations.
 Open Scope Z_scope.
 
 (* ---- numbers: every value of the positive plan that is not the author's own
-   example/default conforms to the numeric keywords, outside four regions ---- *)
+   example/default conforms to the numeric keywords, outside three regions (the fourth, maximum 0,
+   went away with the repair 0b606a31: no truthiness test of a 0 bound decides about a checked value
+   any more - "not minimum and not maximum" only chooses whether the foreign default is drawn and
+   "smaller > 0" only drops a value) ---- *)
 Theorem C03_positive_numbers_valid_partial : forall s ok v d,
   numeric_exclusive s = true -> exclusive_dominates s = true ->
-  max_not_zero_with_min s = true -> multiple_satisfiable s = true ->
+  multiple_satisfiable s = true ->
   In (Some v, d) (fst (positive_number_plan s ok)) -> authored d = false ->
   num_valid s v = true.
 Proof. exact positive_numbers_valid_partial. Qed.
 Print Assumptions C03_positive_numbers_valid_partial.
 
 (* ... and each region is needed: the full statement is false of the code as it is *)
-(* F1: minimum 0, maximum 0 yields 1 *)
-Theorem C03_positive_numbers_valid_refuted_max_zero : exists s v d,
-  In (Some v, d) (fst (positive_number_plan s true)) /\ authored d = false /\ num_valid s v = false
-  /\ numeric_exclusive s = true /\ exclusive_dominates s = true /\ multiple_satisfiable s = true.
-Proof. exists w_zero, 1, DNear. exact refuted_zero. Qed.
-Print Assumptions C03_positive_numbers_valid_refuted_max_zero.
+(* F1 (FIXED by 0b606a31) kept as a regression sentinel: the planner with the old guard
+   "not maximum or larger <= maximum" yields 1 for minimum 0, maximum 0; the repaired planner does not *)
+Theorem C03_legacy_max_zero_guard_refuted : exists s v d,
+  In (Some v, d) (fst (positive_number_plan_legacy s true)) /\ authored d = false /\ num_valid s v = false
+  /\ numeric_exclusive s = true /\ exclusive_dominates s = true /\ multiple_satisfiable s = true
+  /\ max_not_zero_with_min s = false
+  /\ fst (positive_number_plan s true) = [(None, DValid); (Some 0, DMinimum)].
+Proof. exists w_zero, 1, DNear. exact legacy_max_zero_refuted. Qed.
+Print Assumptions C03_legacy_max_zero_guard_refuted.
+
+(* a 0 bound together with a step (minimum -1, maximum 0, multipleOf 5): the legacy planner yields 5,
+   the repaired one only the valid 0 *)
+Theorem C03_zero_bound_with_step_repaired : exists s,
+  fst (positive_number_plan s true) = [(Some 0, DMinimum)] /\
+  In (Some 5, DNear) (fst (positive_number_plan_legacy s true)).
+Proof. exists w_zero_step. exact zero_bounds_now_valid. Qed.
+Print Assumptions C03_zero_bound_with_step_repaired.
 
 (* F2: minimum 5, exclusiveMinimum true (OpenAPI 3.0) yields 2 *)
 Theorem C03_positive_numbers_valid_refuted_bool_exclusive : exists s v d,
   In (Some v, d) (fst (positive_number_plan s true)) /\ authored d = false /\ num_valid s v = false
-  /\ max_not_zero_with_min s = true /\ multiple_satisfiable s = true.
+  /\ multiple_satisfiable s = true.
 Proof. exists w_bool, 2, DMinimum. exact refuted_bool. Qed.
 Print Assumptions C03_positive_numbers_valid_refuted_bool_exclusive.
 
 (* F2 again, inside every other region: minimum 2, exclusiveMinimum true yields 2 *)
 Theorem C03_positive_numbers_valid_refuted_bool_exclusive_only : exists s v d,
   In (Some v, d) (fst (positive_number_plan s true)) /\ authored d = false /\ num_valid s v = false
-  /\ exclusive_dominates s = true /\ max_not_zero_with_min s = true /\ multiple_satisfiable s = true.
+  /\ exclusive_dominates s = true /\ multiple_satisfiable s = true.
 Proof. exists w_bool2, 2, DMinimum. exact refuted_bool2. Qed.
 Print Assumptions C03_positive_numbers_valid_refuted_bool_exclusive_only.
 
 (* F3: 5..7 multipleOf 4 yields 8 (and 4) *)
 Theorem C03_positive_numbers_valid_refuted_no_multiple : exists s v d,
   In (Some v, d) (fst (positive_number_plan s true)) /\ authored d = false /\ num_valid s v = false
-  /\ numeric_exclusive s = true /\ exclusive_dominates s = true /\ max_not_zero_with_min s = true.
+  /\ numeric_exclusive s = true /\ exclusive_dominates s = true.
 Proof. exists w_mult, 8, DMinimum. exact refuted_mult. Qed.
 Print Assumptions C03_positive_numbers_valid_refuted_no_multiple.
 
 (* F4: minimum 10, exclusiveMinimum 3 yields 4 *)
 Theorem C03_positive_numbers_valid_refuted_both_bounds : exists s v d,
   In (Some v, d) (fst (positive_number_plan s true)) /\ authored d = false /\ num_valid s v = false
-  /\ numeric_exclusive s = true /\ max_not_zero_with_min s = true /\ multiple_satisfiable s = true.
+  /\ numeric_exclusive s = true /\ multiple_satisfiable s = true.
 Proof. exists w_both, 4, DMinimum. exact refuted_both. Qed.
 Print Assumptions C03_positive_numbers_valid_refuted_both_bounds.
 
 Theorem C03_positive_numbers_hypotheses_satisfiable : exists s,
   numeric_exclusive s = true /\ exclusive_dominates s = true /\
-  max_not_zero_with_min s = true /\ multiple_satisfiable s = true /\
+  multiple_satisfiable s = true /\
   fst (positive_number_plan s true) = [(Some 4, DMinimum); (Some 8, DNear); (Some 20, DMaximum); (Some 16, DNear)].
 Proof. exists w_good. exact good_hyps. Qed.
 Print Assumptions C03_positive_numbers_hypotheses_satisfiable.
